@@ -142,7 +142,8 @@ def expected(op):
     return [outcome(lambda: b.v), outcome(lambda: b.plus(op['k']).get()),
             outcome(lambda: b.items[op['i']]), outcome(lambda: b(op['x'])),
             outcome(lambda: b.bump()), outcome(lambda: b.bump()),
-            outcome(b.fail)]
+            outcome(b.fail),
+            outcome(lambda: b._priv), outcome(lambda: b._twice())]  # pylint: disable=protected-access
   if kind in ('iter', 'queue'):
     return list(range(op['n']))
   raise AssertionError(kind)
@@ -310,7 +311,7 @@ class RemoteFamily(common.Family):
         try:
           ro_ = mk()
         except Exception as e:  # pylint: disable=broad-exception-caught
-          return [['exc', type(e).__name__, str(e)]] * 7
+          return [['exc', type(e).__name__, str(e)]] * 9
         stays = isinstance(ro_, courier_utils.RemoteObject)
         res = [outcome(lambda: ro_.v.result_(), 'robj'),
                outcome(lambda: ro_.plus(op['k']).get().result_(), 'robj'),
@@ -318,7 +319,9 @@ class RemoteFamily(common.Family):
                outcome(lambda: ro_(op['x']).result_(), 'robj'),
                outcome(lambda: ro_.bump().result_(), 'robj'),
                outcome(lambda: ro_.bump().result_(), 'robj'),
-               outcome(lambda: ro_.fail().result_(), 'robj')]
+               outcome(lambda: ro_.fail().result_(), 'robj'),
+               outcome(lambda: ro_._priv.result_(), 'robj'),  # pylint: disable=protected-access
+               outcome(lambda: ro_._twice().result_(), 'robj')]  # pylint: disable=protected-access
         if not stays:
           res.append(['not-remote', type(ro_).__name__])
         return res
@@ -472,9 +475,9 @@ class RemoteFamily(common.Family):
             res.append(v('equivalence', f'{kind}:{what}:{fault}',
                          f"expr {op['expr']}: remote {got} != local {exp}"))
         elif kind == 'robj':
-          if len(got) > 7:
-            res.append(v('stays-remote', f'robj:{fault}', f'{got[7]}'))
-          for idx, (g, e) in enumerate(zip(got[:7], exp)):
+          if len(got) > 9:
+            res.append(v('stays-remote', f'robj:{fault}', f'{got[9]}'))
+          for idx, (g, e) in enumerate(zip(got[:9], exp)):
             if g != e and not retriable(g):
               res.append(v('equivalence', f'robj:step{idx}:{fault}',
                            f'Box({op["v"]}) step {idx}: remote {g} != local {e}'))
